@@ -140,7 +140,9 @@ let fmt_bits_list l = if l = [] then "-" else S.concat "," (List.map fmt_bits l)
 
 let run_bytes toks =
   match toks with
-  | ["npyw"; sh; bits] -> add (hex_of_bytes (write_npy (parse_list sh) (parse_bits_list bits)))
+  | ["npyw"; sh; bits] ->
+    (match write_npy_checked (parse_list sh) (parse_bits_list bits) with
+     | Some b -> add (hex_of_bytes b) | None -> add "ERR")
   | ["npyr"; hex] ->
     (match read_npy (bytes_of_hex hex) with
      | Inl (sh, vals) -> add ("OK " ^ fmt_list sh ^ " " ^ fmt_bits_list vals)
